@@ -88,6 +88,10 @@ Definition register_variable (c : config) (id : node) (p : pstate) : pstate :=
 Inductive ident_kind := IKExpr | IKSpread.
 
 (** [create_assign_right_operand_expression] *)
+(** [get_dd_paren_span]: an injected parenthesis only covers the first byte of the operation it encloses (the
+    code generator maps a closing parenthesis to [hi - 1], which must be a character boundary). *)
+Definition paren_span (s : sp) : sp := if is_dummy s then s else (fst s, (fst s + 1)%N).
+
 Definition assign_right (e : node) (ik : ident_kind) : node :=
   match ik with
   | IKSpread => mk_array DUMMY [mk_spread_arg e]
@@ -236,7 +240,7 @@ Definition dd_paren (e : node) (a : acc) (method_name : string) (span : sp) : no
   let call := dd_call e (a_args a) method_name span in
   match a_assigns a with
   | [] => call
-  | asg => mk_paren span (mk_seq span (asg ++ [call]))
+  | asg => mk_paren (paren_span span) (mk_seq span (asg ++ [call]))
   end.
 
 (** ** binary_add_transform.rs *)
@@ -317,14 +321,14 @@ Definition assign_transform (c : config) (e : node) (p : pstate) : option node *
         let span := (lo, hi) in
         let '(lhs', hoisted, p0) := hoist_target c lhs span acc0 p in
         (* a sum that is still a sum keeps its grouping: the printer does not parenthesise a right operand *)
-        let right := if is_op bin_op "+" rhs then mk_paren (span_of rhs) rhs else rhs in
+        let right := if is_op bin_op "+" rhs then mk_paren (paren_span (span_of rhs)) rhs else rhs in
         let binary := mk_bin span "+" (simple_target_to_expr lhs') right in
         match binary_transform c binary p0 with
         | (Some e', p1) =>
             let new_assign := mk_assign span "=" lhs' e' in
             (Some (match a_assigns hoisted with
                    | [] => new_assign
-                   | hs => mk_paren span (mk_seq span (hs ++ [new_assign]))
+                   | hs => mk_paren (paren_span span) (mk_seq span (hs ++ [new_assign]))
                    end), p1)
         | (None, p1) => (None, p1)
         end
@@ -763,7 +767,7 @@ Definition optchain_transform (c : config) (fuel : nat) (e : node) (p : pstate)
           let test := mk_bin DUMMY "==" nid (mk_null DUMMY) in
           let cond := mk_cond DUMMY test (mk_ident DUMMY "undefined") e' in
           (* the guard takes the place, and the span, of the chain *)
-          Some (mk_paren (span_of e) (mk_seq (span_of e) (oc_assigns s ++ [cond])), true, oc_p s)
+          Some (mk_paren (paren_span (span_of e)) (mk_seq (span_of e) (oc_assigns s ++ [cond])), true, oc_p s)
       | _, _ => Some (e', false, oc_p s)
       end
   end.
